@@ -54,6 +54,16 @@ def isFiniteDecimal (q : Rat) : Bool :=
                      else if d % 5 == 0 then strip fuel (d / 5) else false
   strip (q.den.log2 + 2) q.den
 
+/-- the tail of `ExchangeRate.__init__` once unit multiple `umv`, term amount
+`tav` and the magnitude `mag` of the term amount are known -/
+def rateOf (dflt : Rounding) (uc tc : Nat) (umv tav : Rat) (mag : Int) : Except Err Rate :=
+  if tav < 1 / 1000000 then .error .ValueError
+  else
+    let mult : Rat := rpow 10 (magnitude umv - min 0 (mag + 1))
+    match decimalOfPrec dflt (tav * mult / umv) 6 with
+    | .ok t => .ok { unitCur := uc, termCur := tc, unitMultiple := mult, termAmount := t }
+    | .error err => .error err
+
 /-- `ExchangeRate(unit_currency, unit_multiple, term_currency, term_amount)` -/
 def mkRate (dflt : Rounding) (uc tc : Nat) (um : UMArg) (ta : TAArg) : Except Err Rate :=
   if uc == tc then .error .ValueError else
@@ -63,19 +73,12 @@ def mkRate (dflt : Rounding) (uc tc : Nat) (um : UMArg) (ta : TAArg) : Except Er
   if umv.den != 1 then .error .ValueError            -- not an Integral
   else if umv < 1 then .error .ValueError
   else
-    let cont := fun (tav : Rat) (mag : Int) =>
-      if tav < 1 / 1000000 then (.error .ValueError : Except Err Rate)
-      else
-        let e : Int := magnitude umv - min 0 (mag + 1)
-        let mult : Rat := rpow 10 e
-        match decimalOfPrec dflt (tav * mult / umv) 6 with
-        | .ok t => .ok { unitCur := uc, termCur := tc, unitMultiple := mult, termAmount := t }
-        | .error err => .error err
     match ta with
     | .typeError => .error .TypeError
     | .valueError => .error .ValueError
-    | .dec v => if v = 0 then .error .OverflowError else cont v (magnitude (if v < 0 then -v else v))
-    | .frac v => if v ≤ 0 then .error .ValueError else cont v (magnitude v)
+    | .dec v => if v = 0 then .error .OverflowError
+                else rateOf dflt uc tc umv v (magnitude (if v < 0 then -v else v))
+    | .frac v => if v ≤ 0 then .error .ValueError else rateOf dflt uc tc umv v (magnitude v)
 
 /-- `rate.inverted()` -/
 def Rate.inverted (dflt : Rounding) (r : Rate) : Except Err Rate :=
@@ -131,7 +134,10 @@ inductive VSpell where
 /-- 4-digit year / 2-digit month and day fields as `date.fromisoformat`
 requires them for `YYYY-MM-DD` -/
 def fixedDigits (s : String) (n : Nat) : Option Int :=
-  if s.length == n && s.all Char.isDigit then s.toNat?.map Int.ofNat else none
+  let cs := s.toList
+  if cs.length == n && cs.all (fun c => '0' ≤ c && c ≤ '9') then
+    some (Int.ofNat (cs.foldl (fun acc c => acc * 10 + (c.toNat - 48)) 0))
+  else none
 
 def parseValidity : VSpell → Except Err Validity
   | .none => .ok .none
